@@ -535,6 +535,16 @@ class Calls(object):
         (a,) = self._args(ev, node, st)
         if isinstance(a.t, TStr):
             return a
+        if isinstance(a.t, TOpt) and isinstance(a.t.inner, (TInt, TStr, TBool)):
+            # str(None) is 'None'; str of a present value is str of that value (the same function the un-wrapped value goes through)
+            inner = a.t.inner
+            got = a.t.get(self.cx, a.e)
+            if isinstance(inner, TStr):
+                pres = got
+            else:
+                fi = self.cx.func("str_of_" + inner.name.replace("[", "_").replace("]", "_"), inner.sort(self.cx), self.cx.Str)
+                pres = fi(got)
+            return SV(z3.If(a.t.is_none(self.cx, a.e), self.cx.str_lit("None"), pres), TStr())
         f = self.cx.func("str_of_" + a.t.name.replace("[", "_").replace("]", "_"), a.t.sort(self.cx), self.cx.Str)
         return SV(f(a.e), TStr())
 
